@@ -344,7 +344,18 @@ fn chunker_config_from_params<R>(
     p: dict::ChunkerParameters,
 ) -> Result<chunker::Config, ArchiveError<R>> {
     use dict::chunker_parameters::ChunkingAlgorithm;
-    match ChunkingAlgorithm::try_from(p.chunking_algorithm) {
+    // Neither a zero max chunk size nor a zero sized rolling hash window can chunk any data.
+    let algorithm = ChunkingAlgorithm::try_from(p.chunking_algorithm);
+    if p.max_chunk_size == 0
+        || (p.rolling_hash_window_size == 0
+            && matches!(
+                algorithm,
+                Ok(ChunkingAlgorithm::Buzhash) | Ok(ChunkingAlgorithm::Rollsum)
+            ))
+    {
+        return Err(ArchiveError::invalid_archive("invalid chunker parameters"));
+    }
+    match algorithm {
         Ok(ChunkingAlgorithm::Buzhash) => Ok(chunker::Config::BuzHash(chunker::FilterConfig {
             filter_bits: chunker::FilterBits::from_bits(p.chunk_filter_bits),
             min_chunk_size: p.min_chunk_size as usize,
